@@ -195,8 +195,10 @@ def main():
         "wall_s": round(time.time() - t0, 2),
         "violations": len({v["signature"] for v in unknown}) + (1 if (rc == 1 and not unknown) else 0),
     }
-    os.makedirs(os.path.join(VERIF, "evidence"), exist_ok=True)
-    with open(os.path.join(VERIF, "evidence", f"{prop}.json"), "w") as f:
+    # (development runs that skip the proof stage do not overwrite the evidence of a full run)
+    evdir = os.path.join(VERIF, ".work", "evidence-no-lean") if args.no_lean else os.path.join(VERIF, "evidence")
+    os.makedirs(evdir, exist_ok=True)
+    with open(os.path.join(evdir, f"{prop}.json"), "w") as f:
         json.dump(jsonable(evidence), f, indent=1)
     try:
         import shutil
